@@ -114,6 +114,8 @@ struct Scenario {
 			for (std::size_t i = 0; i < k; ++i) names.push_back(v.GetName(i));
 			if (!ascendingFold(names, true)) { std::string all; for (auto& n : names) all += n + " "; bad("listing-order", s, all); ok = false; return; }
 			mc::makeDir("xall"); mc::makeDir("xone");
+			// extraction targets that already exist with longer content (first member): replaced, not overwritten in place
+			if (k) { mc::writeFile("xall/" + names[0], std::vector<uint8_t>(byName.count(names[0]) ? byName[names[0]]->size + 5000 : 5000, 0xEE)); mc::writeFile("xone/i0", std::vector<uint8_t>(9000, 0xEE)); }
 			v.ExtractAllFiles("xall");
 			for (std::size_t i = 0; i < k; ++i) {
 				auto it = byName.find(names[i]);
@@ -133,6 +135,19 @@ struct Scenario {
 				if (mc::readFile("xone/" + names[i]) != content) { bad("extract-by-name-bytes", s, names[i]); ok = false; return; }
 				v.ExtractFile(i, "xone/i" + std::to_string(i));
 				if (mc::readFile("xone/i" + std::to_string(i)) != content) { bad("extract-by-index-bytes", s, names[i]); ok = false; return; }
+				{
+					// the same member again, directly after its extraction: stream, then extraction, then stream
+					auto st2 = v.OpenStream(i);
+					std::vector<uint8_t> g2(std::size_t(st2->Length()));
+					if (!g2.empty()) st2->Read(g2.data(), g2.size());
+					if (g2 != content) { bad("stream-after-extraction-bytes", s, names[i]); ok = false; return; }
+					v.ExtractFile(i, "xone/again");
+					if (mc::readFile("xone/again") != content) { bad("repeated-extraction-bytes", s, names[i]); ok = false; return; }
+					auto st3 = v.OpenStream(i);
+					std::vector<uint8_t> g3(std::size_t(st3->Length()));
+					if (!g3.empty()) st3->Read(g3.data(), g3.size());
+					if (g3 != content) { bad("stream-after-extraction-bytes", s, names[i]); ok = false; return; }
+				}
 				for (const std::string& q : { names[i], upper(names[i]), lower(names[i]), swapCase(names[i]) }) {
 					if (!v.Contains(q)) { bad("lookup-contains", s, q); ok = false; return; }
 					std::size_t idx = v.GetIndex(q);
@@ -174,6 +189,8 @@ struct Scenario {
 			std::vector<std::string> list;
 			for (int i : orders[oi]) list.push_back(spelled(s[i]));
 			std::string vol = "out" + std::to_string(oi) + ".vol";
+			// the destination may already exist and be longer than the new archive (first order of every set): it is replaced, not overwritten in place
+			if (oi == 0) { mc::writeFile(vol, std::vector<uint8_t>(first.size() + 70000, 0xEE)); ctx.count("create/over-existing-longer-file"); }
 			auto o = mc::guarded([&] { Archive::VolFile::CreateArchive(vol, list); });
 			ctx.transition();
 			if (o.cls != 'R') { bad("create-refused-valid-set", s, "order " + std::to_string(oi) + ": " + o.what); return; }
@@ -277,6 +294,18 @@ void build(Ctx& ctx)
 	for (uint32_t b : kBig) addSet({ 2 }, { b });
 	if (ctx.thorough) { for (uint32_t b1 : kBig) for (uint32_t b2 : kBig) addSet({ 0, 3 }, { b1, b2 }); for (uint32_t b : kBig) for (uint32_t s : kSizes) addSet({ 1, 5, 9 }, { s, b, 3 }); }
 	else { addSet({ 0, 3 }, { kBig[1], kBig[2] }); addSet({ 0, 3 }, { kBig[5], 1 }); addSet({ 1, 5, 9 }, { 2, kBig[0], 3 }); }
+	// names that differ only in characters next to the letters in ASCII ([ { \ | ] } ^ ~ ` @), which a home-made case folding
+	// confuses, and names at the length limit of the file system (255) and just below
+	{
+		auto custom = [&](std::vector<std::pair<std::string, uint32_t>> files) { FileSet s; int i = 0; for (auto& f : files) { s.push_back({ 0, f.second, i % 3, (i / 2) % 4, f.first }); ++i; } gSets.push_back(s); };
+		custom({ { "t[1}", 3 }, { "T{1]", 5 } });
+		custom({ { "x^", 1 }, { "x~", 2 }, { "X`", 4 }, { "x@", 7 } });
+		custom({ { "a|b", 2 }, { "a\\b", 3 }, { "A]", 1 }, { "a}", 0 } });
+		std::string l255(255, 'n'), l254(254, 'n'), l100(100, 'q');
+		custom({ { l255, 5 } });
+		custom({ { l254, 4 }, { l255, 3 }, { "a", 2 } });
+		custom({ { l100, 1 }, { "b", 2 }, { l254 + "", 7 } });
+	}
 	// a 40-file set
 	{
 		FileSet s;
